@@ -16,7 +16,23 @@ def readset_to_list(readset):
     return out
 
 
-def run_phase(main_vcf, phase_vcfs=(), ped=None, bams=(), reference=False, lists=(), keep_dir=False, **opts):
+class CoverageGuard(Exception):
+    pass
+
+
+def span_coverage_of(reads, positions=None):
+    rs = [[v[0] for v in rd["variants"]] for rd in reads]
+    rs = [r for r in rs if r]
+    pos = list(positions) if positions else sorted({p for r in rs for p in r})
+    cov = [0] * len(pos)
+    for r in rs:
+        for j, p in enumerate(pos):
+            if r[0] <= p <= r[-1]:
+                cov[j] += 1
+    return cov
+
+
+def run_phase(main_vcf, phase_vcfs=(), ped=None, bams=(), reference=False, lists=(), keep_dir=False, coverage_guard=None, **opts):
     """Run run_whatshap on text inputs. Returns dict(out, read_list, gtchange_list, recomb_list, solver_calls, selections, error)."""
     import whatshap.cli.phase as P
     logging.disable(logging.CRITICAL)
@@ -62,8 +78,14 @@ def run_phase(main_vcf, phase_vcfs=(), ped=None, bams=(), reference=False, lists
                                 positions=None if positions is None else list(positions), n_individuals=len(pedigree),
                                 chromosome=ctx["chromosome"], family=list(ctx["samples"]))
                 ctx["samples"] = []
-                self.t = orig_table(readset, recombcost, pedigree, distrust_genotypes, positions)
                 res["solver_calls"].append(self.rec)
+                if coverage_guard is not None:
+                    cov = span_coverage_of(self.rec["reads"], self.rec["positions"])
+                    if cov and max(cov) > coverage_guard:
+                        # precondition of the solver (contract: at most k reads span a column) is violated: do not build a 2^coverage table
+                        res["coverage_violation"] = dict(coverage=cov, family=self.rec["family"], chromosome=self.rec["chromosome"])
+                        raise CoverageGuard("solver input exceeds the coverage cap")
+                self.t = orig_table(readset, recombcost, pedigree, distrust_genotypes, positions)
 
             def get_super_reads(self):
                 sr, tv = self.t.get_super_reads()
